@@ -7,7 +7,8 @@ use sdjwt::{Algorithm, Header, KeyForDecoding, Validation};
 use serde_json::{json, Value};
 
 fn payload() -> Value {
-    json!({"_sd_alg": "sha-256", "sub": "user_42", "_sd": [], "n": [1, 2, 3]})
+    // the odd string makes sure the payload segment contains '-' and '_' (base64url of '>' '?' '~')
+    json!({"_sd_alg": "sha-256", "sub": "user_42", "_sd": [], "n": [1, 2, 3], "odd": "???>>>~~~ ?>~?>~"})
 }
 
 fn sign_with(alg: &Algorithm, which: usize) -> Option<String> {
@@ -129,6 +130,40 @@ fn mutations(ctx: &mut Ctx, rng: &mut Rng, per_segment: usize, all_positions: bo
                 }
             }
             offset += seg.len() + 1;
+        }
+        // characters outside the base64url alphabet: standard-alphabet twins, padding, whitespace
+        let mut o2 = 0usize;
+        for (si, seg) in segs.iter().enumerate() {
+            let mut variants: Vec<(String, String)> = Vec::new();
+            for (from, to) in [('-', '+'), ('_', '/')] {
+                let hits: Vec<usize> = seg.char_indices().filter(|(_, c)| *c == from).map(|(i, _)| i).collect();
+                for pos in hits.iter().take(4) {
+                    let mut b = jwt.clone().into_bytes();
+                    b[o2 + pos] = to as u8;
+                    variants.push((format!("twin:{}->{}", from, to), String::from_utf8(b).unwrap()));
+                }
+            }
+            for pad in ["=", "==", " ", "%3D", "\n"] {
+                let mut parts: Vec<String> = segs.iter().map(|s| s.to_string()).collect();
+                parts[si] = format!("{}{}", parts[si], pad);
+                variants.push((format!("appended:{:?}", pad), parts.join(".")));
+                let mut parts: Vec<String> = segs.iter().map(|s| s.to_string()).collect();
+                parts[si] = format!("{}{}", pad, parts[si]);
+                variants.push((format!("prepended:{:?}", pad), parts.join(".")));
+            }
+            for _ in 0..8 {
+                let pos = rng.below(seg.len());
+                let mut b = jwt.clone().into_bytes();
+                b[o2 + pos] = *rng.pick(&[b'+', b'/', b'=', b' ', b'.', b'~', b'%', b'*']);
+                if let Ok(m) = String::from_utf8(b) { if m != jwt { variants.push(("non-alphabet-char".to_string(), m)); } }
+            }
+            for (label, m) in variants {
+                ctx.report.evaluations += 1;
+                let case = json!({"kind":"non-alphabet","alg":keys::alg_name(a),"segment":si,"edit":label,"jwt":m});
+                three(ctx, &m, &key, a, false, "mutation:non-alphabet", &case, None);
+                ctx.report.nontrivial_case(&case);
+            }
+            o2 += seg.len() + 1;
         }
         // structural edits
         for (label, m) in [("sig-stripped", format!("{}.{}.", segs[0], segs[1])), ("sig-dropped", format!("{}.{}", segs[0], segs[1])),
